@@ -1,15 +1,19 @@
 #!/usr/bin/env python3
 """Correspondence run for C09: library (harness/drv_rolling) versus the Lean model (rh_model).
 
-usage: validate_rolling.py <build-dir> [--seeds N] [--nops N] [--maxlen N] [--impls base,00,04,pub]
+usage: validate_rolling.py <build-dir> [--seeds N] [--nops N] [--maxlen N] [--impls base,00,04,pub] [--big 0|1]
 
 <build-dir> is what `python3 /verif/tools/build_repo.py default` prints (isa-l_crypto.a + src/).
 For every implementation and seed: generate + execute the operation history on the library, replay
 it on the model, diff the result streams line by line and explain every disagreement.  The only
 accepted explanation is defect F5 (assembly scans, odd trailing byte): the library returns HIT with
 offset = max_len + 1 where the model returns HIT with offset = max_len and the same hash; each such
-line must also have been flagged by the driver's own MONITOR lines.  Exit status 0 iff there is no
-unexplained disagreement.
+line must also have been flagged by the driver's own MONITOR lines.  (F5 was fixed in /repo commit
+57e0491: on a current tree the expected number of disagreements is zero for every implementation.)
+With --big 1 (default) the first seed of every implementation also executes one call with
+max_len >= 2^31 (`big=1` of the driver, monitors only); its BIG line must be identical for all
+implementations and no C09-large-len monitor may fire.  Exit status 0 iff there is no unexplained
+disagreement.
 """
 import os
 import subprocess
@@ -36,6 +40,8 @@ def main():
     nops = int(opt("--nops", "20000"))
     maxlen = int(opt("--maxlen", "600"))
     impls = opt("--impls", "base,00,04,pub").split(",")
+    big = opt("--big", "1") == "1"
+    biglines = {}
     out = os.path.join(ROOT, "out")
     os.makedirs(out, exist_ok=True)
     drv = os.path.join(out, "drv_rolling")
@@ -46,12 +52,14 @@ def main():
     model = os.path.join(ROOT, ".lake", "build", "bin", "rh_model")
     unexplained = 0
     for impl in impls:
-        tot = dict(ops=0, runs=0, hits=0, diffs=0, f5=0, mon_beyond=0, mon_dis=0, t_drv=0.0, t_model=0.0)
+        tot = dict(ops=0, runs=0, hits=0, diffs=0, f5=0, mon_beyond=0, mon_dis=0, t_drv=0.0, t_model=0.0,
+                   big=0, bigfail=0)
         minimal = None
         for seed in range(1, seeds + 1):
             ops, res = os.path.join(out, "ops.%s.%d" % (impl, seed)), os.path.join(out, "res.%s.%d" % (impl, seed))
             t0 = time.time()
-            mon = subprocess.run([drv, impl, str(seed), str(nops), str(maxlen), ops, res],
+            extra = ["big=1"] if big and seed == 1 else []
+            mon = subprocess.run([drv, impl, str(seed), str(nops), str(maxlen), ops, res] + extra,
                                  capture_output=True, text=True, check=True).stdout.splitlines()
             t1 = time.time()
             mres = subprocess.run([model], stdin=open(ops), capture_output=True, text=True, check=True).stdout.splitlines()
@@ -66,6 +74,14 @@ def main():
             tot["hits"] += int(summ["hits"])
             tot["mon_beyond"] += int(summ["offset_beyond_max_len"])
             tot["mon_dis"] += int(summ["scan_disagrees"])
+            tot["big"] += int(summ["large_len_ops"])
+            tot["bigfail"] += int(summ["large_len_failures"])
+            for l in mon:
+                if l.startswith("MONITOR C09-large-len"):
+                    print("UNEXPLAINED " + l)
+                    unexplained += 1
+                if l.startswith("BIG "):
+                    biglines[impl] = l.replace("impl=%s " % impl, "")
             flagged = set(l.split('op="')[1].split('"')[0] for l in mon
                           if l.startswith("MONITOR C09-offset-beyond-max-len") and "MINIMAL" not in l)
             for l in mon:
@@ -93,12 +109,19 @@ def main():
                     unexplained += 1
                     print("UNEXPLAINED impl=%s seed=%d line=%d op=%r\n  library: %s\n  model:   %s" % (impl, seed, i + 1, op, c, m))
         print("impl=%-4s seeds=%d ops=%d runs=%d hit_rate=%.3f | model-diffs=%d explained-by-F5=%d | monitors: "
-              "offset-beyond-max-len=%d scan-disagrees-with-base=%d | drv %.1fs model %.1fs"
+              "offset-beyond-max-len=%d scan-disagrees-with-base=%d large-len ops=%d failures=%d | drv %.1fs model %.1fs"
               % (impl, seeds, tot["ops"], tot["runs"], tot["hits"] / max(1, tot["runs"]), tot["diffs"], tot["f5"],
-                 tot["mon_beyond"], tot["mon_dis"], tot["t_drv"], tot["t_model"]))
+                 tot["mon_beyond"], tot["mon_dis"], tot["big"], tot["bigfail"], tot["t_drv"], tot["t_model"]))
         if minimal:
             print("  " + minimal[1])
-    print("RESULT: %s" % ("all disagreements explained (F5 only)" if not unexplained else "%d UNEXPLAINED" % unexplained))
+    if biglines:
+        if len(set(biglines.values())) == 1:
+            print("large-len call identical for %s: %s" % (",".join(biglines), next(iter(biglines.values()))))
+        else:
+            unexplained += 1
+            for k, v in biglines.items():
+                print("UNEXPLAINED large-len results differ: %s: %s" % (k, v))
+    print("RESULT: %s" % ("no unexplained disagreement" if not unexplained else "%d UNEXPLAINED" % unexplained))
     sys.exit(1 if unexplained else 0)
 
 
